@@ -117,21 +117,63 @@ PROPS = {
         design_ref="DESIGN.md §5 C13",
         assumptions=[],
     ),
+    "C01": dict(
+        units=["replica", "implied", "blockstore"],
+        count_all=True,      # every obligation of these units is a premise of the agreement argument
+        level="other",
+        explanation="PREMISES ONLY. What is machine-checked (Verus, on the real handler text, for all inputs): every per-replica rule the "
+                    "agreement argument uses -- vote at most once per view and only in phase Prepare (on_proposal), vote only for the block the "
+                    "verified justification implies (vote_for/is_implied), no commit vote after a timeout vote of the same view (start_timeout "
+                    "sets phase Timeout; start_new_view requires a strictly higher view), a block is built and queued only on a valid commit "
+                    "certificate (save_block precondition; consume-stub precondition weight >= quorum), certificates adopted only if strictly "
+                    "newer, nothing signed leaves before the state recording it is durable, restart restores that state; plus the composition "
+                    "lemmas: two quorums share a correct validator for every faulty set of weight <= f (lemma_two_quorums_share_correct), the "
+                    "one-step sub-quorum lemma (lemma_subquorum), threshold arithmetic (C07), the store never replaces an accepted number (C08). "
+                    "What is NOT machine-checked: hypothesis H-ind, the induction over all multi-view histories that chains these facts into "
+                    "'no two correct nodes commit different payloads for one number'. It is printed as an assumption on every run.",
+        level_text="other: machine-checked premises + composition lemmas of the agreement argument; the global history induction (H-ind) is a "
+                   "stated, unverified hypothesis. A contract can say what one call does; agreement is a whole-history property, so this is the "
+                   "honest level for this technique.",
+        level_note="H-ind (history induction) unverified; vote-cache bookkeeping of on_commit/on_timeout abstracted by stubs with an assumed "
+                   "contract (certificate assembled from verified votes and compared with the quorum is valid); BLS, keccak, std containers, "
+                   "EngineInterface durability trusted; A7 (certified numbers/views < 2^64-1).",
+        technique="contract-based deductive verification of the premises (Verus) + ghost composition lemmas; global induction not mechanised",
+        design_ref="DESIGN.md §5 C01",
+        assumptions=["H-ind: multi-view history induction NOT mechanised"],
+    ),
     "C03": dict(
         units=["replica"],
         level="proof",
-        level_text="(being extended) handler postconditions + persist-before-send ghost monitor on the real text of the replica handlers",
-        level_note="see DESIGN.md",
-        technique="contract-based deductive verification (Verus on extracted real handlers; ghost monitor at every send site)",
+        level_text="Deductive proof (Verus) over the real text of on_proposal, on_new_view, on_commit, on_timeout, start_new_view, start_timeout, "
+                   "process_commit_qc, process_timeout_qc, get_justification, backup_state, save_block, StateMachine::start. Vote-once: "
+                   "on_proposal returns Ok only if the message view is above the current view or equal with phase Prepare, then view := msg "
+                   "view, phase := Commit, high_vote := the vote, and exactly that one commit vote is emitted; a rejected proposal changes "
+                   "nothing and emits nothing. start_timeout sets phase Timeout (so no commit vote can follow in that view); the view only "
+                   "moves forward (start_new_view requires view > current; on_* ensure final view >= old). Persist-before-send: a ghost field "
+                   "records the snapshot (view, phase, high vote, high certificates) at every successful backup_state; an assertion before "
+                   "EVERY outbound send requires it to equal the current snapshot, and backup_state is proved to hand exactly that snapshot "
+                   "to set_state. Restart: StateMachine::start restores exactly the stored snapshot (incl. phase) when the epoch matches.",
+        level_note="Not decided: durability/atomicity of EngineInterface::set_state itself (A5) and a crash INSIDE it; the wire encoding of the "
+                   "stored state (C09). One task per replica (A4). The proposal-cache statements and the vote caches are abstracted.",
+        technique="contract-based deductive verification (Verus on extracted real handlers; ghost persist-before-send monitor at every send site)",
         design_ref="DESIGN.md §5 C03",
         assumptions=[],
     ),
     "C05": dict(
         units=["replica"],
         level="proof",
-        level_text="(being extended) handler accept conditions and certificate monotonicity on the real text of the replica handlers",
-        level_note="see DESIGN.md",
-        technique="contract-based deductive verification (Verus on extracted real handlers)",
+        level_text="Deductive proof (Verus) over the real handler text: (monotone) view number, highest commit certificate view and highest "
+                   "timeout certificate view never decrease in any handler, on success or error; certificates are adopted iff strictly newer "
+                   "by VIEW, the commit certificate carried in a timeout certificate is processed unconditionally; (justified) "
+                   "start_new_view requires a strictly higher view and a valid held certificate for the preceding view or later, and its three "
+                   "call sites discharge that; on_commit/on_timeout change the view only to msg.view+1 after the certificate formed; "
+                   "(self-justifying) get_justification returns the higher certificate, commit on a tie, and it is valid in isolation "
+                   "(invariant certs_valid); new-view / timeout messages emitted equal new_view_msg()/timeout_msg() of the final state; "
+                   "(spec conformance) Ok <=> accept predicates transcribed from spec/informal-spec/replica.rs for on_new_view (iff up to "
+                   "internal errors) and => for on_proposal/on_commit/on_timeout; proposer attaches a payload iff no re-proposal is forced.",
+        level_note="The duplicate-signer rule and QC assembly in on_commit/on_timeout are inside abstracted regions (only their use is checked). "
+                   "Timer handling and metrics are dropped. Accept predicates are ~40 lines of spec fn reviewed against the informal spec.",
+        technique="contract-based deductive verification (Verus on extracted real handlers against spec functions written from the informal spec)",
         design_ref="DESIGN.md §5 C05",
         assumptions=[],
     ),
